@@ -65,7 +65,8 @@ Verdicts(r) ==
 DeepVerdicts(r) ==
        (IF r.status # "ok" THEN {<<"C09", "weighing a covenant of " \o (IF r.fam = "cost-long-flat" THEN "very many instructions" ELSE "deeply nested loops") \o " killed the process (" \o r.status \o ")">>,
                                  <<"C11", "weighing a covenant of " \o (IF r.fam = "cost-long-flat" THEN "very many instructions" ELSE "deeply nested loops") \o " killed the process (" \o r.status \o ")">>} ELSE {})
-  \cup (IF r.status = "ok" /\ r.weight # FromInt(r.k + 1) THEN {<<"C11", "covenant weight differs from the specification">>, <<"C05", "covenant weight differs from the specification">>} ELSE {})
+  \cup (IF r.status = "ok" /\ r.weight # FromInt(r.k + 1) THEN {<<"C11", "covenant weight differs from the specification">>, <<"C05", "covenant weight differs from the specification">>,
+                                                                  <<"C12", "the weight of a very long covenant computed from its bytes is not the weight of its instructions (decoding does not consume the whole input)">>} ELSE {})
   \cup (IF r.status = "ok" /\ r.ms > 20000 THEN {<<"C11", "weighing a covenant took more than 20 seconds">>} ELSE {})
 \* deeply nested values, run in a child process.  KNOWN FINDING (not repaired): cloning / dropping a vector nested tens of thousands deep
 \* recurses once per level and exhausts the stack; tagged so that known_findings.json can list exactly this family
